@@ -202,10 +202,14 @@ func (u c15Use) perform(g *rapid.Generator[any], id int, scheduled bool) (log st
 				yield()
 				v := g.Draw(t, "v")
 				fmt.Fprintf(&b, "%s;", show(v))
+				tooLong := len(fmt.Sprint(v))
+				scribble(v) // a check owns what it drew
 				yield()
 				w := g.Draw(t, "w")
 				fmt.Fprintf(&b, "%s|", show(w))
-				if u.Kind == 4 && len(fmt.Sprint(v, w)) > 4 {
+				tooLong += len(fmt.Sprint(w))
+				scribble(w)
+				if u.Kind == 4 && tooLong > 3 {
 					t.Fatalf("too long")
 				}
 			})
